@@ -1064,4 +1064,8 @@ pub mod verif_hooks {
     pub fn make_dot_string_constant(s: &str) -> String {
         super::make_dot_string_constant(s)
     }
+
+    pub fn lookup(pool: &super::RegexInternPool, id: super::RegexId) -> &super::Regex {
+        pool.lookup(id)
+    }
 }
